@@ -6,10 +6,11 @@ import gen as G
 import sph, armh
 
 PROP = 'C11'
-LEAN_MODULES = ['BR.Props.C11', 'BR.Props.C11Body']
+LEAN_MODULES = ['BR.Props.C11', 'BR.Props.C11Body', 'BR.Props.C11Carry']
 THEOREMS = ['BR.C11.cross_top_eq_cross_bottom', 'BR.C11.leg_wrench', 'BR.C11.sumActuator_eq_neg', 'BR.C11.statics_balance', 'BR.C11.row_dot_twist',
             'BR.C11.hasDerivAt_norm3_sub', 'BR.C11.invJac_is_length_derivative',
-            'BR.C11B.dot_mulVec_transpose', 'BR.C11B.bodyForces_eq']
+            'BR.C11B.dot_mulVec_transpose', 'BR.C11B.bodyForces_eq',
+            'BR.C11C.carryWrench_force', 'BR.C11C.shaftWrenches_force', 'BR.C11C.pointTowards_on_leg']
 TIE = ('The rows [q x n, n] of SP.inverseJacobian, the wrench sum of SP.sumActuatorWrenches and the transpose map invJ^T tau are modelled in lean/BR/Model/SP.lean; their Float instances are compared '
        'with the real methods on the joint positions the real platform publishes (1e-10). The derivative, equilibrium, body-frame and mass-carrying clauses are also evaluated directly on the real SP '
        '(Richardson central differences of independently computed leg lengths; independent wrench bookkeeping).')
@@ -20,7 +21,7 @@ TRUSTED = ['Lean 4.33 kernel + Mathlib v4.33 (axioms: propext, Classical.choice,
 ASSUMPTIONS = ['geometries, placements and poses of C09 with cond(invJ) <= 1e4', 'derivative to 1e-6 (Richardson, steps 2e-4/1e-4), equilibrium to 1e-8 relative to the wrench norm']
 RULE = ('random geometries x {plain at a random base, moved, re-spun and moved, small platform far (up to 12) from the origin with cond 1e3..1e4} x in-workspace relative poses accepted without corrective action x random twists and wrenches (components up to 1 and 10); '
         'distinct = distinct (geometry, placement, pose); non-trivial = non-vertical wrench away from the origin')
-SAMPLED = ['staticForcesInvBody inverts staticForcesBody (pseudo-inverse oracle; the forward direction is a theorem for any Jacobian)', 'carryMassCalc loads the legs with wrench + top plate weight + shaft weights at their centres of gravity']
+SAMPLED = ['staticForcesInvBody inverts staticForcesBody (pseudo-inverse oracle; the forward direction is a theorem for any Jacobian)', 'carryMassCalc: moment parts of the carried wrench (the force part, and the model of the bookkeeping compared with the real method, are theorem / correspondence)']
 
 
 def run(res, tier, seed, driver_ok):
@@ -119,6 +120,10 @@ def run(res, tier, seed, driver_ok):
         expect.append(('sumActuatorWrenches', sw, i2))
         lines.append('sp.rowsT ' + ' '.join(C.f2h(x) for x in list(iJ.reshape(-1)) + list(tau)))
         expect.append(('staticForcesInv', back, i2))
+        # the wrench carryMassCalc hands to the statics, recovered from the leg forces it returns: invJ^T tau_m
+        lines.append('sp.carry ' + ' '.join(C.f2h(x) for x in list(W) + list(np.asarray(sp.grav, dtype=float).reshape(-1)) + list(Tt[:3, 3]) +
+                                              [sp._top_plate_mass, sp._act_shaft_mass, sp._act_shaft_grav_center] + list(bs.T.reshape(-1)) + list(ts.T.reshape(-1))))
+        expect.append(('carryMassCalc', iJ.T @ np.asarray(taum, dtype=float).reshape(-1), i2))
         e = float(np.abs(iJ.T @ tau - W).max()) / wn
         stats['worst_equilibrium_error'] = max(stats['worst_equilibrium_error'], e)
         if not e <= 1e-8:
